@@ -11,4 +11,7 @@ if ! cargo build --offline >"$ROOT/mc/target.build.log" 2>&1; then
   tail -40 "$ROOT/mc/target.build.log"
   echo "MACHINERY-ERROR: harness build failed (see above)"; exit 2
 fi
+if [ "$ID" = "C14" ]; then
+  exec python3 "$ROOT/scripts/typex.py" "$TIER"
+fi
 exec "$ROOT/mc/target/debug/vcheck" check "$ID" --tier "$TIER"
